@@ -195,7 +195,7 @@ class ComplementProjector(LinearOperator):
     _matvec = _matmat = _apply
 
     def _apply_left(self: LinearOperator, v: np.ndarray) -> np.ndarray:
-        return v - self._left_vecs.conj() @ (self._vecs.T @ v)
+        return v - self._left_vecs @ (self._vecs.conj().T @ v)
 
     _rmatvec = _rmatmat = _apply_left
 
